@@ -149,6 +149,11 @@ func (g *Gen) Emit(line string, nontrivial bool, tags ...string) string {
 	if mirrorOps[op] && (mirrorFilter[op] == nil || mirrorFilter[op](line)) {
 		g.Emit("g"+line, false, "generated-code")
 	}
+	if d := derivedOps[op]; d != nil {
+		for _, l := range d(line) {
+			g.Emit(l, false, "derived")
+		}
+	}
 	if g.nsampl < 12 && (g.st.Ops%97 == 1 || g.st.Ops < 4) && len(line) < 400 {
 		g.st.Samples = append(g.st.Samples, line+" => "+out)
 		g.nsampl++
@@ -249,3 +254,6 @@ func mirror(ops ...string) {
 		mirrorOps[o] = true
 	}
 }
+
+// derivedOps: further op lines emitted for every line of an op (e.g. the token stream of every input that is parsed)
+var derivedOps = map[string]func(line string) []string{}
